@@ -123,7 +123,19 @@ def get_generic_name(typ: Type, short: bool = False) -> str:
 
 
 def get_args(typ: Optional[Type]) -> tuple[Type, ...]:
-    return getattr(typ, "__args__", ())
+    args = getattr(typ, "__args__", ())
+    if any(getattr(arg, "__unpacked__", False) for arg in args):
+        # PEP 646 star syntax in a builtin generic that was not evaluated by
+        # typing (tuple[int, *tuple[str, ...]]): the same as Unpack[...]
+        args = tuple(
+            (
+                typing_extensions.Unpack[arg.__origin__[arg.__args__]]
+                if getattr(arg, "__unpacked__", False)
+                else arg
+            )
+            for arg in args
+        )
+    return args
 
 
 def _get_args_str(
